@@ -177,7 +177,7 @@ func cdMessage(rng *vRand) (proto.Message, string) {
 
 func codecCaseCount(e vEnv) int64 {
 	if e.Tier == "thorough" {
-		return 1000000
+		return 5000000
 	}
 	return 30000
 }
